@@ -198,6 +198,16 @@ add("C10", "TLC on PowerBins.tla + replay: dense PowerDistributor and adjoint, e
     "spectrum; nifty.re's get_fourier_mode_distributor must bin the modes identically.",
     TRUST + "perfect-square spectra make sqrt and bin averages exact.")
 
+add("C09", "TLC on Harmonic.tla (FFT / Hartley entries as exact volume and fraction of a turn; INVERSE.TIMES = 1 checked exactly for quarter-turn grids) + replay into FFTOperator / HartleyOperator (four modes, both conventions), the three back ends, sub-space transforms; smoothing and SHT laws",
+    "For 66 regular grids (1-3 axes, axis lengths 2-5, three distances per axis) every entry of the transform in TIMES and INVERSE mode is specified as "
+    "(volume, rational fraction of a turn); TLC checks the harmonic pixel volume 1/(N vol) and, where all roots of unity are quarter turns, that INVERSE "
+    "times TIMES is exactly the identity. The dense matrices of FFTOperator and of HartleyOperator under both conventions are compared in all four modes "
+    "(adjoint modes = conjugate transposes) for complex and real input, the zero mode must be the integral, the transform on a sub-space of a product "
+    "domain must act on every slice, and the ducc dispatch, the SciPy dispatch and nifty.re's hartley must agree with the specification on the same "
+    "arrays under both conventions. HarmonicSmoothingOperator must be the identity for sigma=0 and HT^-1 diag(exp(-2 pi^2 sigma^2 k^2)) HT otherwise; the "
+    "spherical-harmonic transforms must be adjoint-consistent and map the l=0 coefficient to the same constant map on GL and HEALPix pixelisations.",
+    TRUST + "cos/sin/exp of the exact turn are evaluated by NumPy (1e-12); the SHT normalisation beyond adjointness and the l=0 mode is not covered.")
+
 
 def main():
     props = [json.loads(l) for l in open(os.path.join(HERE, "properties.jsonl"))]
